@@ -96,6 +96,9 @@ def run(fx, chk, tier):
     # T6: what is returned for a sample does not depend on data behind it in the file
     chk.rule("T6", "a sample's bytes and timing are computed from the fragment it lies in, never from a later one that a cut may remove (C09 R-OWNFRAG instances)")
     n["T6"] = compose(fx, chk, tier, "T6", "C09", ["R-OWNFRAG"], floor=5, what="fragment element accesses in the lookups")
+    # T7: the fragments of a prefix are a prefix of the fragments of the file
+    chk.rule("T7", "fragments are kept in file order and only appended: cutting the file after fragment k cannot change which fragment a sample id <= k's last sample refers to (C09 R-FILEORDER)")
+    n["T7"] = compose(fx, chk, tier, "T7", "C09", ["R-FILEORDER"], floor=1, what="file-order obligations")
     chk.floor("T1", "top-level child-size hand-offs", n["T1"], 8)
     chk.floor("T2", "reader-side I/O call expressions", n["T2"], 300)
     chk.floor("T3", "payload pairing obligations", n["T3"], 3)
